@@ -364,6 +364,44 @@ func (x *fcWorld) cWinUpd() {
 	}
 }
 
+// dupProbe: use up the stream's (and possibly the connection's) credit, ask IsNewlyBlocked (true at
+// most once), then deliver a DUPLICATE or an OLDER MAX_STREAM_DATA / MAX_DATA for the same limit and
+// ask again: the answer must be false (monitors blocked-twice/*).
+func (x *fcWorld) dupProbe(i int) {
+	st := x.streams[i]
+	if win := x.sSendWin(i); win > 0 {
+		x.sSent(i, win)
+	}
+	x.sBlocked(i)
+	x.cBlockedOp()
+	if x.r.Bool() {
+		x.sUpdSend(i, st.maxSend)
+	} else {
+		x.sUpdSend(i, max(st.maxSend-int64(x.r.Range(1, 3)), 0))
+	}
+	x.sBlocked(i)
+	if x.r.Bool() {
+		x.cUpdSend(x.cMaxSend)
+	} else {
+		x.cUpdSend(max(x.cMaxSend-int64(x.r.Range(1, 3)), 0))
+	}
+	x.cBlockedOp()
+	if x.r.Chance(1, 3) { // the 0-RTT case: the handshake's transport parameters repeat the remembered limit
+		x.cUpdSend(x.cMaxSend)
+		x.sBlocked(i)
+		x.cBlockedOp()
+	}
+}
+
+// probeBlocked ends every case: how a controller remembers where it last reported "blocked" is not
+// read from its fields; its effect is observed by asking every controller once more.
+func (x *fcWorld) probeBlocked() {
+	for i := range x.streams {
+		x.sBlocked(i)
+	}
+	x.cBlockedOp()
+}
+
 func (x *fcWorld) cReset() {
 	err := x.conn.Reset()
 	x.emit("CReset", "conn.Reset()", fcB2i(err != nil), 0)
@@ -532,6 +570,10 @@ func runFlowCtlCase(w *bufio.Writer, r *u.Rng, caseNo int, dist map[string]int) 
 				}
 			}
 		case c < 3*ws:
+			if r.Chance(1, 3) {
+				x.dupProbe(i) // blocked at L, reported; duplicate / older MAX_* for L; must not be reported again
+				break
+			}
 			x.sUpdSend(i, nearSend(st.maxSend))
 			if r.Chance(1, 3) {
 				x.sBlocked(i)
@@ -623,6 +665,7 @@ func runFlowCtlCase(w *bufio.Writer, r *u.Rng, caseNo int, dist map[string]int) 
 		}
 		x.checkState()
 	}
+	x.probeBlocked()
 	// final state
 	cs := flowcontrol.VerifConnState(x.conn)
 	var sts []string
@@ -674,6 +717,7 @@ func fcEnumUniverse(w *bufio.Writer, name string, alphabet []func(x *fcWorld), m
 			alphabet[k](x)
 			x.checkState()
 		}
+		x.probeBlocked()
 		cs := flowcontrol.VerifConnState(x.conn)
 		var sts []string
 		for _, st := range x.streams {
@@ -726,11 +770,73 @@ func fcEnumAll(w *bufio.Writer, dist map[string]int) {
 	fcEnumUniverse(w, "mixed<=6", mixed, 6, dist)
 }
 
+// fcScripted: the "blocked once per limit" scenarios, in every run: blocked at L -> reported once ->
+// duplicate / older / 0-RTT re-applied MAX_* for L -> must not be reported again; for the stream and
+// for the connection controller.
+func fcScripted(w *bufio.Writer, dist map[string]int) {
+	scripts := [][]func(x *fcWorld){
+		{ // connection level
+			func(x *fcWorld) { x.cUpdSend(5) }, func(x *fcWorld) { x.newStream(8, 16, 10) },
+			func(x *fcWorld) { x.sSendWin(0); x.sSent(0, 5) }, func(x *fcWorld) { x.cBlockedOp() },
+			func(x *fcWorld) { x.cUpdSend(5) }, func(x *fcWorld) { x.cBlockedOp() },
+			func(x *fcWorld) { x.cUpdSend(3) }, func(x *fcWorld) { x.cBlockedOp() },
+			func(x *fcWorld) { x.cUpdSend(6) }, func(x *fcWorld) { x.sSent(0, 1) }, func(x *fcWorld) { x.cBlockedOp() },
+			func(x *fcWorld) { x.cUpdSend(6) }, func(x *fcWorld) { x.cBlockedOp() },
+		},
+		{ // stream level
+			func(x *fcWorld) { x.cUpdSend(100) }, func(x *fcWorld) { x.newStream(8, 16, 4) },
+			func(x *fcWorld) { x.sSendWin(0); x.sSent(0, 4) }, func(x *fcWorld) { x.sBlocked(0) },
+			func(x *fcWorld) { x.sUpdSend(0, 4) }, func(x *fcWorld) { x.sBlocked(0) },
+			func(x *fcWorld) { x.sUpdSend(0, 2) }, func(x *fcWorld) { x.sBlocked(0) },
+			func(x *fcWorld) { x.sUpdSend(0, 5) }, func(x *fcWorld) { x.sSent(0, 1) }, func(x *fcWorld) { x.sBlocked(0) },
+			func(x *fcWorld) { x.sUpdSend(0, 5) }, func(x *fcWorld) { x.sBlocked(0) },
+		},
+		{ // a stream whose initial limit is 0, and 0-RTT: Reset, then the same limits again
+			func(x *fcWorld) { x.cUpdSend(3) }, func(x *fcWorld) { x.newStream(8, 16, 0) },
+			func(x *fcWorld) { x.sBlocked(0) }, func(x *fcWorld) { x.sUpdSend(0, 0) }, func(x *fcWorld) { x.sBlocked(0) },
+			func(x *fcWorld) { x.newStream(8, 16, 3) }, func(x *fcWorld) { x.sSent(1, 3) }, func(x *fcWorld) { x.cBlockedOp() },
+			func(x *fcWorld) { x.cReset() }, func(x *fcWorld) { x.cUpdSend(3) }, func(x *fcWorld) { x.newStream(8, 16, 3) },
+			func(x *fcWorld) { x.sSent(0, 3) }, func(x *fcWorld) { x.cBlockedOp() }, func(x *fcWorld) { x.cUpdSend(3) },
+			func(x *fcWorld) { x.cBlockedOp() },
+		},
+	}
+	for _, sc := range scripts {
+		func() {
+			x := &fcWorld{w: w, r: u.NewRng(11), fails: map[string]bool{}, cBlocked: map[int64]int{}, kind: "scripted", disc: true}
+			defer func() {
+				if e := recover(); e != nil {
+					fmt.Fprintf(w, "MONFAIL\tflowctl/panic\tpanic: %v\t%s\n", e, strings.Join(x.human, " ; "))
+				}
+			}()
+			x.rtt = utils.NewRTTStats()
+			x.now = 1000000000
+			cw, cmax := int64(16), int64(32)
+			x.cAdv, x.cLastRWS, x.cInitRWS, x.cMaxRWS = cw, cw, cw, cmax
+			x.conn = flowcontrol.NewConnectionFlowController(protocol.ByteCount(cw), protocol.ByteCount(cmax),
+				func(size protocol.ByteCount) bool { x.allowDelta = int64(size); return x.allowAns }, x.rtt, utils.DefaultLogger)
+			for _, f := range sc {
+				f(x)
+				x.checkState()
+			}
+			x.probeBlocked()
+			cs := flowcontrol.VerifConnState(x.conn)
+			var sts []string
+			for _, st := range x.streams {
+				ss, fin := flowcontrol.VerifStreamState(st.fc)
+				sts = append(sts, u.Pair(fcDump(ss), u.B(fin)))
+			}
+			fmt.Fprintf(w, "CASE 1 %s\n", u.App("FC", u.Z(cw), u.Z(cmax), u.List(x.ops), u.List(x.rets), fcDump(cs), u.List(sts)))
+			dist["scripted"]++
+		}()
+	}
+}
+
 func runFlowCtl(w *bufio.Writer, seed uint64, n int, _ []string) {
 	// NewRng(seed) and NewRng(seed+1) produce the same Fork sequence shifted by one case;
 	// re-seed from a mixed value so that different seeds give unrelated case sets.
 	r := u.NewRng(u.NewRng(seed).U64() ^ 0xC04)
 	dist := map[string]int{}
+	fcScripted(w, dist)
 	for i := 0; i < n; i++ {
 		runFlowCtlCase(w, r.Fork(), i, dist)
 	}
